@@ -8,11 +8,13 @@ package c01
 import (
 	"bytes"
 	"context"
-	"errors"
 	"crypto/x509"
 	"encoding/json"
+	"errors"
 	"fmt"
+	"io"
 	"sort"
+	"testing/iotest"
 	"time"
 
 	"github.com/notaryproject/notation-core-go/signature"
@@ -23,6 +25,7 @@ import (
 	"github.com/notaryproject/notation-go/verifier"
 	"github.com/notaryproject/notation-go/verifier/trustpolicy"
 	"github.com/notaryproject/notation-go/xverif/common"
+	pluginfw "github.com/notaryproject/notation-plugin-framework-go/plugin"
 	"github.com/opencontainers/go-digest"
 	ocispec "github.com/opencontainers/image-spec/specs-go/v1"
 )
@@ -45,6 +48,9 @@ type Input struct {
 	Artifact      Desc        `json:"artifact"`
 	HashSupported bool        `json:"hashSupported"`
 	Required      [][2]string `json:"required"`
+	// concretisation only (ignored by the model, theorem concretisation_irrelevant):
+	Reader string `json:"reader"` // blob: how the reader delivers the bytes ("bytes", "dataEOF", "oneByte", "half", "chunksEOF")
+	Plugin bool   `json:"plugin"` // the signature names an installed verification plugin that owns the identity check and approves
 }
 
 type Obs struct {
@@ -116,6 +122,7 @@ type envCase struct {
 	format string
 	bytes  []byte
 	signer string // "" = the main chain, "other" = the second chain (when integrity holds)
+	plugin bool   // signed with the critical verification-plugin attribute
 }
 
 func rawPayload(target string) []byte { return []byte(`{"targetArtifact":` + target + `}`) }
@@ -184,7 +191,7 @@ func (w *world) envelopes(c *common.Ctx, d ocispec.Descriptor) []envCase {
 		t := t
 		for _, f := range []string{common.MediaJWS, common.MediaCOSE} {
 			b := common.MustSign(common.EnvOpts{Format: f, Chain: w.chain, Target: &t})
-			out = append(out, envCase{"fresh/" + name, f, b, ""})
+			out = append(out, envCase{"fresh/" + name, f, b, "", false})
 			fresh[f+name] = b
 		}
 	}
@@ -205,7 +212,7 @@ func (w *world) envelopes(c *common.Ctx, d ocispec.Descriptor) []envCase {
 	for name, p := range odd {
 		b, err := common.SignEnvelope(common.EnvOpts{Format: common.MediaCOSE, Chain: w.chain, Payload: p})
 		if err == nil {
-			out = append(out, envCase{"payload/" + name, common.MediaCOSE, b, ""})
+			out = append(out, envCase{"payload/" + name, common.MediaCOSE, b, "", false})
 		}
 	}
 	// wrong payload content type: an unrelated type, and look-alikes of the Notary type
@@ -214,7 +221,7 @@ func (w *world) envelopes(c *common.Ctx, d ocispec.Descriptor) []envCase {
 		for _, f := range []string{common.MediaJWS, common.MediaCOSE} {
 			b, err := common.SignEnvelope(common.EnvOpts{Format: f, Chain: w.chain, Target: &d, ContentType: ct})
 			if err == nil {
-				out = append(out, envCase{"content-type/" + ct, f, b, ""})
+				out = append(out, envCase{"content-type/" + ct, f, b, "", false})
 			}
 		}
 	}
@@ -230,27 +237,53 @@ func (w *world) envelopes(c *common.Ctx, d ocispec.Descriptor) []envCase {
 		}
 		m[part] = ja[part] // envelope for another artifact with one part of the exact one
 		x, _ := json.Marshal(m)
-		out = append(out, envCase{"reassembled/" + part + "-of-exact", common.MediaJWS, x, ""})
+		out = append(out, envCase{"reassembled/" + part + "-of-exact", common.MediaJWS, x, "", false})
 		m = map[string]json.RawMessage{}
 		for k, v := range ja {
 			m[k] = v
 		}
 		m[part] = jb[part]
 		x, _ = json.Marshal(m)
-		out = append(out, envCase{"reassembled/" + part + "-of-other", common.MediaJWS, x, ""})
+		out = append(out, envCase{"reassembled/" + part + "-of-other", common.MediaJWS, x, "", false})
 	}
 	// a valid envelope by another signer, and that envelope carrying the main chain's certificates
 	ob := common.MustSign(common.EnvOpts{Format: common.MediaJWS, Chain: w.other, Target: &d})
-	out = append(out, envCase{"fresh/other-signer", common.MediaJWS, ob, "other"})
-	out = append(out, envCase{"fresh/other-signer", common.MediaCOSE, common.MustSign(common.EnvOpts{Format: common.MediaCOSE, Chain: w.other, Target: &d}), "other"})
+	out = append(out, envCase{"fresh/other-signer", common.MediaJWS, ob, "other", false})
+	out = append(out, envCase{"fresh/other-signer", common.MediaCOSE, common.MustSign(common.EnvOpts{Format: common.MediaCOSE, Chain: w.other, Target: &d}), "other", false})
 	var jo map[string]json.RawMessage
 	json.Unmarshal(ob, &jo)
 	jo["header"] = ja["header"]
 	x5c, _ := json.Marshal(jo)
-	out = append(out, envCase{"reassembled/other-signature-with-main-x5c", common.MediaJWS, x5c, ""})
+	out = append(out, envCase{"reassembled/other-signature-with-main-x5c", common.MediaJWS, x5c, "", false})
 	// envelope of one format offered as the other
-	out = append(out, envCase{"wrong-format", common.MediaCOSE, fresh[common.MediaJWS+"exact"], ""})
-	out = append(out, envCase{"wrong-format", common.MediaJWS, fresh[common.MediaCOSE+"exact"], ""})
+	out = append(out, envCase{"wrong-format", common.MediaCOSE, fresh[common.MediaJWS+"exact"], "", false})
+	out = append(out, envCase{"wrong-format", common.MediaJWS, fresh[common.MediaCOSE+"exact"], "", false})
+	// the same kinds of envelopes carrying the critical verification-plugin attribute: with an installed
+	// plugin that approves, everything about the payload must be checked all the same
+	pattrs := []signature.Attribute{{Key: verifier.HeaderVerificationPlugin, Critical: true, Value: c01Plugin}}
+	for name, t := range targetVariants(d) {
+		t := t
+		if name != "exact" && name != "digest" && name != "size" {
+			continue
+		}
+		for _, f := range []string{common.MediaJWS, common.MediaCOSE} {
+			if b, err := common.SignEnvelope(common.EnvOpts{Format: f, Chain: w.chain, Target: &t, ExtAttrs: pattrs}); err == nil {
+				out = append(out, envCase{"plugin/fresh/" + name, f, b, "", true})
+			}
+		}
+	}
+	for _, ct := range []string{"application/json", common.PayloadTypeV1 + ";version=2", "application/vnd.cncf.notary.payload.v2+json", "application/vnd.in-toto+json"} {
+		for _, f := range []string{common.MediaJWS, common.MediaCOSE} {
+			if b, err := common.SignEnvelope(common.EnvOpts{Format: f, Chain: w.chain, Target: &d, ContentType: ct, ExtAttrs: pattrs}); err == nil {
+				out = append(out, envCase{"plugin/content-type/" + ct, f, b, "", true})
+			}
+		}
+	}
+	for name, p := range odd {
+		if b, err := common.SignEnvelope(common.EnvOpts{Format: common.MediaCOSE, Chain: w.chain, Payload: p, ExtAttrs: pattrs}); err == nil {
+			out = append(out, envCase{"plugin/payload/" + name, common.MediaCOSE, b, "", true})
+		}
+	}
 	// byte mutations of valid envelopes
 	nm := 60
 	if c.Thorough() {
@@ -275,7 +308,7 @@ func (w *world) envelopes(c *common.Ctx, d ocispec.Descriptor) []envCase {
 			p := c.Rand.Intn(len(m))
 			m[p] = byte(c.Rand.Intn(256))
 		}
-		out = append(out, envCase{"mutated", f, m, ""})
+		out = append(out, envCase{"mutated", f, m, "", false})
 	}
 	return out
 }
@@ -317,6 +350,52 @@ func levels() []levelCase {
 			trustpolicy.TypeAuthenticTimestamp: log, trustpolicy.TypeExpiry: log}, false, true, false},
 		{"skip", "skip", nil, false, false, true},
 	}
+}
+
+const c01Plugin = "c01-identity-plugin"
+
+// pluginManager: an installed verification plugin that owns the trusted-identity check and approves
+func pluginManager() *common.ScriptedManager {
+	return &common.ScriptedManager{Plugins: map[string]pluginfw.Plugin{c01Plugin: &common.ScriptedPlugin{
+		Metadata: &pluginfw.GetMetadataResponse{Name: c01Plugin, Description: "d", Version: "1.0.0", URL: "u",
+			SupportedContractVersions: []string{"1.0"}, Capabilities: []pluginfw.Capability{pluginfw.CapabilityTrustedIdentityVerifier}},
+		VerifyResp: &pluginfw.VerifySignatureResponse{VerificationResults: map[pluginfw.Capability]*pluginfw.VerificationResult{
+			pluginfw.CapabilityTrustedIdentityVerifier: {Success: true}}},
+	}}}
+}
+
+// chunksEOF delivers the bytes in chunks of 7 and the last chunk together with io.EOF
+type chunksEOF struct {
+	b []byte
+}
+
+func (r *chunksEOF) Read(p []byte) (int, error) {
+	n := 7
+	if n > len(p) {
+		n = len(p)
+	}
+	if n >= len(r.b) {
+		n = copy(p, r.b)
+		r.b = nil
+		return n, io.EOF
+	}
+	copy(p, r.b[:n])
+	r.b = r.b[n:]
+	return n, nil
+}
+
+func readerFor(kind string, blob []byte) io.Reader {
+	switch kind {
+	case "dataEOF":
+		return iotest.DataErrReader(bytes.NewReader(blob))
+	case "oneByte":
+		return iotest.OneByteReader(bytes.NewReader(blob))
+	case "half":
+		return iotest.HalfReader(bytes.NewReader(blob))
+	case "chunksEOF":
+		return &chunksEOF{b: append([]byte(nil), blob...)}
+	}
+	return bytes.NewReader(blob)
 }
 
 // recording wrapper around the real blob verifier: keeps the outcome of the inner call
@@ -362,7 +441,11 @@ func runOCI(w *world, e envCase, lv levelCase, artifact ocispec.Descriptor, req 
 		pol.SignatureVerification.Override[trustpolicy.TypeRevocation] = trustpolicy.ActionSkip
 	}
 	doc := &trustpolicy.OCIDocument{Version: "1.0", TrustPolicies: []trustpolicy.OCITrustPolicy{pol}}
-	v, err := verifier.NewVerifierWithOptions(store, verifier.VerifierOptions{OCITrustPolicy: doc})
+	vo := verifier.VerifierOptions{OCITrustPolicy: doc}
+	if e.plugin {
+		vo.PluginManager = pluginManager()
+	}
+	v, err := verifier.NewVerifierWithOptions(store, vo)
 	if err != nil {
 		panic(err)
 	}
@@ -378,7 +461,7 @@ func runOCI(w *world, e envCase, lv levelCase, artifact ocispec.Descriptor, req 
 	if (verr2 == nil) != (verr == nil) || len(um) != len(req) || (outcome2 == nil) != (outcome == nil) {
 		verr, outcome = nil, &notation.VerificationOutcome{Error: errors.New("not repeatable")} // inconsistent on purpose: flagged
 	}
-	in := Input{Kind: "oci", Skip: lv.skip, Rest: lv.rest(e.signer), Artifact: toDesc(artifact), HashSupported: true, Required: req}
+	in := Input{Kind: "oci", Skip: lv.skip, Rest: lv.rest(e.signer), Artifact: toDesc(artifact), HashSupported: true, Required: req, Reader: "", Plugin: e.plugin}
 	in.ParseOk, in.IntegrityOk, in.PayloadTypeOk, in.Decoded, _ = facts(e.bytes, e.format)
 	in.Artifact.Annotations = [][2]string{}
 	o := Obs{Accepted: verr == nil}
@@ -392,7 +475,7 @@ func runOCI(w *world, e envCase, lv levelCase, artifact ocispec.Descriptor, req 
 	return in, o
 }
 
-func runBlob(w *world, e envCase, lv levelCase, blob []byte, mediaType string, req [][2]string) (Input, Obs) {
+func runBlob(w *world, e envCase, lv levelCase, blob []byte, mediaType string, req [][2]string, reader string) (Input, Obs) {
 	store := common.NewMemStore()
 	if lv.trusted {
 		store.Certs["ca:c01"] = []*x509.Certificate{w.chain.Root().Cert}
@@ -409,7 +492,11 @@ func runBlob(w *world, e envCase, lv levelCase, blob []byte, mediaType string, r
 		pol.SignatureVerification.Override[trustpolicy.TypeRevocation] = trustpolicy.ActionSkip
 	}
 	doc := &trustpolicy.BlobDocument{Version: "1.0", TrustPolicies: []trustpolicy.BlobTrustPolicy{pol}}
-	v, err := verifier.NewVerifierWithOptions(store, verifier.VerifierOptions{BlobTrustPolicy: doc})
+	vo := verifier.VerifierOptions{BlobTrustPolicy: doc}
+	if e.plugin {
+		vo.PluginManager = pluginManager()
+	}
+	v, err := verifier.NewVerifierWithOptions(store, vo)
 	if err != nil {
 		panic(err)
 	}
@@ -422,8 +509,8 @@ func runBlob(w *world, e envCase, lv levelCase, blob []byte, mediaType string, r
 		BlobVerifierVerifyOptions: notation.BlobVerifierVerifyOptions{SignatureMediaType: e.format, UserMetadata: um, TrustPolicyName: "c01"},
 		ContentMediaType:          mediaType}
 	// first a verification whose result is discarded, with the same options value and verifier
-	notation.VerifyBlob(context.Background(), &recBlobVerifier{inner: v}, bytes.NewReader(blob), e.bytes, bopts)
-	desc, _, verr := notation.VerifyBlob(context.Background(), rec, bytes.NewReader(blob), e.bytes, bopts)
+	notation.VerifyBlob(context.Background(), &recBlobVerifier{inner: v}, readerFor(reader, blob), e.bytes, bopts)
+	desc, _, verr := notation.VerifyBlob(context.Background(), rec, readerFor(reader, blob), e.bytes, bopts)
 	if len(um) != len(req) {
 		verr = nil // the caller's map was modified: flagged through an impossible acceptance
 	}
@@ -433,7 +520,7 @@ func runBlob(w *world, e envCase, lv levelCase, blob []byte, mediaType string, r
 	// the blob descriptor as the generator computes it: the hash is bound to the signature algorithm;
 	// all keys of this harness are P-256 (SHA-256)
 	art := Desc{MediaType: mediaType, Digest: string(digest.FromBytes(blob)), Size: int64(len(blob)), Annotations: [][2]string{}}
-	in := Input{Kind: "blob", Skip: lv.skip, Rest: lv.rest(e.signer), Artifact: art, HashSupported: true, Required: req}
+	in := Input{Kind: "blob", Skip: lv.skip, Rest: lv.rest(e.signer), Artifact: art, HashSupported: true, Required: req, Reader: reader, Plugin: e.plugin}
 	in.ParseOk, in.IntegrityOk, in.PayloadTypeOk, in.Decoded, _ = facts(e.bytes, e.format)
 	o := Obs{Accepted: verr == nil}
 	if rec.outcome != nil {
@@ -502,13 +589,23 @@ func Run(c *common.Ctx) error {
 					if (e.label == "mutated" || mt == "text/plain") && rn != "none" && rn != "subset" {
 						continue
 					}
-					in, o := runBlob(w, e, lv, w.blob, mt, requiredMaps[rn])
+					in, o := runBlob(w, e, lv, w.blob, mt, requiredMaps[rn], "bytes")
 					c.Emit(in, o)
 					count(e, in, o)
 				}
 			}
+			// however the reader delivers the blob (one byte at a time, short reads, the last bytes
+			// together with io.EOF), the digest is that of the whole blob
+			if e.label != "mutated" {
+				for _, rd := range []string{"dataEOF", "oneByte", "half", "chunksEOF"} {
+					in, o := runBlob(w, e, lv, w.blob, "", [][2]string{}, rd)
+					c.Emit(in, o)
+					count(e, in, o)
+					c.Count("reader=" + rd)
+				}
+			}
 			// the same signature offered for another blob
-			in, o := runBlob(w, e, lv, otherBlob, "", [][2]string{})
+			in, o := runBlob(w, e, lv, otherBlob, "", [][2]string{}, "bytes")
 			c.Emit(in, o)
 			count(e, in, o)
 		}
